@@ -40,9 +40,24 @@ func init() {
 	reg("R-POS", "In the commit write loop the record is written at ActiveFile.writeOff of the file it is written to; every Hint built on the commit path takes dataPos from a read of that same location with no possible write to the offset or to DB.ActiveFile in between (effect summaries of intervening calls), and fileID from DB.ActiveFile.fileID with no rotation between writing and indexing; hints built while scanning record the scan offset and the id of the file being scanned.", rulePos)
 	reg("R-ACTIVEFILE", "Every assignment of a NewDataFile(getDataPath(X)) result to DB.ActiveFile is accompanied on all non-error paths by a store of X's value into that file's fileID (loads are resolved through dominating stores).", ruleActiveFile)
 	reg("R-UPDATE", "Record.UpdateRecord stores a parameter into every field of Record on all paths, and BPTree.Insert passes its own hint and entry to it for an existing key.", ruleUpdateRecord)
+	reg("R-REPLAY", "Every (ds, Flag) code the API emits (constant arguments at the call sites of the pending-write gate, propagated through wrappers) has a commit-time and an open-time applier, and for each code both call the same data-structure mutator with the same canonical receiver and argument recipes over the record's KEY/VALUE/BUCKET leaves; every applier call is selected by both ds and Flag.", ruleReplay)
+	reg("R-REPLAY-LIST", "R-REPLAY restricted to list op codes.", ruleReplayList)
+	reg("R-REPLAY-SET", "R-REPLAY restricted to set op codes.", ruleReplaySet)
+	reg("R-REPLAY-ZSET", "R-REPLAY restricted to sorted-set op codes.", ruleReplayZSet)
+	reg("R-REPLAY-KV", "The key under which a key/value record is inserted into the B+ tree index has the same recipe at commit time and on reopen, in the RAM modes and in sparse mode.", ruleReplayKV)
+	reg("R-ERRPOLICY", "For each replayed op code whose mutator can return an error: if the commit-time applier discards that error, the open-time applier must not use it (it would make Open fail on a directory produced by successful calls).", ruleErrPolicy)
+	reg("R-OPCODEC", "No []byte payload handed to a mutator by an applier is an element of an unbounded strings.Split over stored bytes; every API that creates a key which is later split rejects keys containing the separator before logging.", ruleOpCodec)
+	reg("R-MERGE-CLASSIFY", "Every emitted (ds, Flag) code is classified by Merge: under the valuation (ds, Flag) either a filter function can only return true (dead) or an append to the rewrite set is reachable in a keeper function (live if present).", ruleMergeClassify)
+	reg("R-RO-IO", "The file-system half of R-RO: no exported read API of Tx reaches a file-creating or modifying primitive other than opening an existing segment through NewDataFile(getDataPath(id)).", ruleROIO)
 }
 
 var properties = []Property{
+	{ID: "C08", Rules: []string{"R-OWN", "R-REPLAY", "R-REPLAY-KV", "R-ORDER", "R-ERRPOLICY", "R-POS"},
+		Explain: "Decides the facts that make 'state = replay of the log' true by construction: no in-memory mutation exists that is not a logged record; commit-time and open-time appliers agree op code by op code (callee and argument recipes) and cover every emitted code; writes, applies and replay follow log order; ops that were no-ops at commit are no-ops at replay; index hints agree between commit and reopen.",
+		NotCov:  "that replaying the same ops on the same data-structure code yields the same result is assumed (the ds methods are deterministic except skiplist levels)."},
+	{ID: "C05", Rules: []string{"R-OPCODEC", "R-REPLAY-LIST"},
+		Explain: "Decides two clauses: the log encoding of list operations survives arbitrary value bytes (no payload recovered through an unbounded split; split keys are rejected at the API if they contain the separator), and list op codes are applied identically at commit and on reopen.",
+		NotCov:  "equality with a Redis list model over operation sequences, index clamping arithmetic of LRange/LRem/LTrim (runtime values; not applicable to static analysis)."},
 	{ID: "C01", Rules: []string{"R-LIVE", "R-EXPIRY", "R-POS", "R-ACTIVEFILE", "R-UPDATE", "R-RECOVER"},
 		Explain: "Decides, for the RAM index modes, that every returned entry passed the tombstone and expiry guards on all feasible paths (no offset/limit), that the expiry predicate equals its specification on a grid around the expiry instant, that index hints name the position and file the record was written to, that an overwrite replaces the whole record, and that only committed records are indexed after reopen.",
 		NotCov:  "functional correctness of the B+ tree (sorted order, every key found, inclusive range bounds), which are data-structure invariants over runtime values."},
@@ -58,7 +73,7 @@ var properties = []Property{
 	{ID: "C18", Rules: []string{"R-BACKUP"},
 		Explain: "Decides that the backup copy runs with the database lock held for its whole duration (inside View on the same DB), copies the whole Options.Dir, and writes no shared state.",
 		NotCov:  "that the copy opens and shows the same state (depends on C09/C10 and on CopyDir), interaction with an unlocked Merge (C17)."},
-	{ID: "C06", Rules: []string{"R-SETLOG", "R-OWN", "R-RO"},
+	{ID: "C06", Rules: []string{"R-SETLOG", "R-OWN", "R-RO", "R-REPLAY-SET"},
 		Explain: "Decides the clause 'SMove moves the member as part of the enclosing write transaction, with the same durability as any other write': every set mutation is a logged record (reaches the gate), no API edits index state directly, read APIs are effect-free.",
 		NotCov:  "equivalence with a mathematical set model over operation sequences (runtime values) - not applicable to static analysis."},
 	{ID: "C13", Rules: []string{"R-VISIBLE", "R-ORDER"},
@@ -70,8 +85,8 @@ var properties = []Property{
 	{ID: "C22", Rules: []string{"R-OPEN-ORDER", "R-MODE-TABLE"},
 		Explain: "Decides that Open runs the mode check before any file-creating or modifying effect other than creating the directory itself, that a refusal is returned, and that the check's decision — a boolean function of three atoms evaluated over all 12 rows from the SSA decision region — equals the specification and does not distinguish the two RAM modes.",
 		NotCov:  "that a crashed sparse directory still has its bpt directory; equality of contents after switching RAM modes (C19)."},
-	{ID: "C09", Rules: []string{"R-SCANEND", "R-TORN"},
-		Explain: "Decides, for every segment-scan loop, that each end-of-data signal (zero header, io.EOF, capacity reached) and a torn tail (ErrCrc) ends the scan instead of failing Open.",
+	{ID: "C09", Rules: []string{"R-SCANEND", "R-TORN", "R-ERRPOLICY", "R-RO-IO"},
+		Explain: "Decides the statement's own three cases: for every segment-scan loop each end-of-data signal (zero header, io.EOF, capacity reached) and a torn tail (ErrCrc) ends the scan instead of failing Open; an operation whose error the commit-time applier ignores is not turned into a failure by the open-time applier; read APIs create no files that a later Open parses.",
 		NotCov:  "crash images of the sparse index files; enumeration of crash points."},
 	{ID: "C21", Rules: []string{"R-CODEC", "R-CRC", "R-PUT"},
 		Explain: "Decides layout symmetry of the three codecs from the constant-folded byte ranges in the SSA form (encoder PutUintN vs decoder UintN per field, widths, tiling, payload order and bounds, Size()), CRC coverage on both sides, that every non-nil decoder return is behind the CRC comparison, and that the size fields of a logged record are len() of its payloads.",
